@@ -85,6 +85,22 @@ Theorem C07_bool : forall b, bool_sql2py (bool_py2sql b) = b.
 Proof. exact bool_roundtrip. Qed.
 Print Assumptions C07_bool.
 
+(* Json / array attributes: the value an object holds after ANY assignment (plain value, its own tracked value, a tracked value
+   of another object or attribute, a nested part) notifies that object and attribute on in-place edits, so that the edit is
+   written by the next flush; the payload is unchanged.  json_validate / array_validate carry the keep-as-is condition read from
+   JsonConverter.validate / ArrayConverter.validate on every run. *)
+Theorem C07_json_assign_owner : forall obj attr v, tv_notifies (json_validate obj attr v) = Some (obj, attr).
+Proof. exact json_validate_owner. Qed.
+Print Assumptions C07_json_assign_owner.
+
+Theorem C07_array_assign_owner : forall obj attr v, tv_notifies (array_validate obj attr v) = Some (obj, attr).
+Proof. exact array_validate_owner. Qed.
+Print Assumptions C07_array_assign_owner.
+
+Theorem C07_json_assign_payload : forall obj attr v, tv_payload (json_validate obj attr v) = tv_payload v.
+Proof. exact json_validate_payload. Qed.
+Print Assumptions C07_json_assign_payload.
+
 Example C07_nonvacuous :
   td_str (mk_td (-1) 86399 999999) = [45; 48; 58; 48; 58; 48; 46; 48; 48; 48; 48; 48; 49]
   /\ str2timedelta [45; 48; 58; 48; 58; 48; 46; 48; 48; 48; 48; 48; 49] = Some (mk_td (-1) 86399 999999)
